@@ -24,6 +24,7 @@ func scanConcurrentCmd(args []string) int {
 	n := fs.Int("n", 14, "keys")
 	mem := fs.Int64("mem", 200, "memtable size")
 	ranged := fs.Bool("range", false, "use a range iterator covering all keys")
+	seeks := fs.Bool("seeks", false, "start the scan with Seek and re-seek forward now and then (instead of SeekToFirst/Next only)")
 	fs.Parse(args)
 	stderr := os.Stderr
 	muteStdout()
@@ -95,7 +96,18 @@ func scanConcurrentCmd(args []string) int {
 		}
 	}
 	foreign()
-	it.SeekToFirst()
+	last := 0
+	seekTo := func(t int) {
+		// Seek(t): the scan continues on the smallest key >= key(t); logged so that the specification skips the keys below t
+		it.Seek(key(t))
+		log.ev(map[string]interface{}{"e": "seek", "pos": t})
+		last = t - 1
+	}
+	if *seeks {
+		seekTo(rng.Intn(*n/2 + 1))
+	} else {
+		it.SeekToFirst()
+	}
 	for steps := 0; it.Valid() && steps < 10**n; steps++ {
 		if !it.IsTombstone() {
 			k := it.Key()
@@ -107,9 +119,16 @@ func scanConcurrentCmd(args []string) int {
 			}
 			ok := p > 0 && bytes.Equal(it.Value(), stableVal(p))
 			log.ev(map[string]interface{}{"e": "yield", "pos": p, "ok": ok})
+			if p > last {
+				last = p
+			}
 		}
 		foreign()
-		it.Next()
+		if *seeks && last < *n && rng.Intn(4) == 0 {
+			seekTo(last + 1 + rng.Intn(*n-last))
+		} else {
+			it.Next()
+		}
 	}
 	log.ev(map[string]interface{}{"e": "end"})
 	log.close()
